@@ -258,7 +258,9 @@ CTX_GHOST = """
             reserved: if self.hidden() { 1 } else { 0 },
         }
     }
-    pub open spec fn wf(&self) -> bool { self.abs().wf() && self.abs().stack.len() + self.abs().reserved <= Self::max_rows() }
+    /// representation invariant: never an empty stack; the hidden row exists when it is referred to
+    pub closed spec fn repr_ok(&self) -> bool { self.stack.view().len() >= (if self.hidden() { 2nat } else { 1nat }) }
+    pub open spec fn wf(&self) -> bool { self.repr_ok() && self.abs().wf() && self.abs().stack.len() + self.abs().reserved <= Self::max_rows() }
     pub open spec fn params(caf: u64, daf: i64, address_size: u8) -> CfaParams {
         CfaParams { caf: caf, daf: daf, address_size: address_size, max_rows: Self::max_rows(), max_rules: Self::max_rules() }
     }
@@ -295,7 +297,8 @@ def evaluate_clauses():
 
 TABLE_FRAME = ('final(self).code_alignment_factor == old(self).code_alignment_factor && final(self).data_alignment_factor == old(self).data_alignment_factor '
                '&& final(self).address_size == old(self).address_size && final(self).last_end_address == old(self).last_end_address '
-               '&& final(self).ctx.abs().initial == old(self).ctx.abs().initial && final(self).ctx.abs().reserved == old(self).ctx.abs().reserved')
+               '&& final(self).ctx.abs().initial == old(self).ctx.abs().initial && final(self).ctx.abs().reserved == old(self).ctx.abs().reserved '
+               '&& final(self).instructions == old(self).instructions && final(self).returned_last_row == old(self).returned_last_row')
 
 
 def populate_unwind(ctx, sk, cfi):
@@ -368,7 +371,7 @@ def populate_unwind(ctx, sk, cfi):
     uc.splice('row', ret='res', requires=['self.wf()'], ensures=['[C06:ctx-row] res.abs() == self.abs().top()'])
     uc.splice('row_mut', ret='res', requires=[WF0], ensures=[
         f'[C06:ctx-row] res.abs() == {A0}.top()',
-        f'[C06:ctx-row] {A1} == {A0}.with_top(final(res).abs())'])
+        f'[C06:ctx-row] {A1} == {A0}.with_top(final(res).abs())', 'final(self).repr_ok()'])
     uc.splice('save_initial_rules', ret='res', requires=[WF0, f'[C06:initial-once] {A0}.initial is None'], ensures=[
         f'[C06:initial-capture] res is Ok ==> {A1}.initial == Some({A0}.top().rules) && {A1}.stack == {A0}.stack '
         f'&& {A1}.reserved == (if rules_len({A0}.top().rules) <= 1 {{ 0nat }} else {{ 1nat }})',
@@ -382,7 +385,7 @@ def populate_unwind(ctx, sk, cfi):
         f'[C06:ctx-set-rule] res is Ok ==> {A1} == {A0}.with_top(ARow {{ rules: {A0}.top().rules.insert(register, rule), ..{A0}.top() }})',
         f'[C06:ctx-set-rule] res is Err <==> !{A0}.top().rules.contains_key(register) && rules_len({A0}.top().rules) >= Self::max_rules()',
         f'[C06:ctx-set-rule] res matches Err(e) ==> e == Error::TooManyRegisterRules && {A1} == {A0}',
-        'final(self).wf()'])
+        'final(self).wf()'], before=[('self.row_mut().registers.set(register, rule)', 'proof { broadcast use lemma_with_top_top; }')])
     uc.splice('clear_register_rule', ret='res', requires=[WF0], ensures=[
         f'[C06:ctx-clear-rule] res is Ok && {A1} == {A0}.with_top(ARow {{ rules: {A0}.top().rules.remove(register), ..{A0}.top() }})',
         'final(self).wf()'])
@@ -392,7 +395,7 @@ def populate_unwind(ctx, sk, cfi):
     uc.splice('set_cfa', requires=[WF0], ensures=[
         f'[C06:ctx-row] {A1} == {A0}.with_top(ARow {{ cfa: cfa, ..{A0}.top() }})', 'final(self).wf()'])
     uc.splice('cfa_mut', ret='res', requires=[WF0], ensures=[
-        f'*res == {A0}.top().cfa', f'{A1} == {A0}.with_top(ARow {{ cfa: *final(res), ..{A0}.top() }})'])
+        f'*res == {A0}.top().cfa', f'{A1} == {A0}.with_top(ARow {{ cfa: *final(res), ..{A0}.top() }})', 'final(self).wf()'])
     uc.splice('push_row', ret='res', requires=[WF0], ensures=[
         f'[C06:ctx-push] res is Ok ==> {A1} == (ACtx {{ stack: {A0}.stack.push({A0}.top()), ..{A0} }})',
         f'[C06:ctx-push-limit] res is Err <==> {A0}.stack.len() + {A0}.reserved >= Self::max_rows()',
@@ -411,13 +414,14 @@ def populate_unwind(ctx, sk, cfi):
     it = cfi.item(r"^impl<'a, R: Reader> CallFrameInstructionIter<'a, R> \{", label='CallFrameInstructionIter').clean()
     it.insert_members('    pub closed spec fn inp(&self) -> RView { self.input.rv() }\n'
                       '    /// the instruction bytes lie inside the section the expression offsets are counted from\n'
-                      '    pub closed spec fn wf(&self) -> bool { self.input.rv().root == self.parameters.section.rv().root && self.parameters.section.rv().start <= self.input.rv().start }')
+                      '    pub closed spec fn wf(&self) -> bool { self.input.rv().len == 0 || (self.input.rv().root == self.parameters.section.rv().root && self.parameters.section.rv().start <= self.input.rv().start) }')
     it.splice('next', ret='res', requires=['old(self).wf()'], ensures=[
         '[C01:iter-done] old(self).inp().len == 0 ==> res == Ok::<Option<CallFrameInstruction<R::Offset>>, Error>(None) && final(self).inp() == old(self).inp()',
         '[C01:iter-error-empties] res is Err ==> final(self).inp().len == 0',
         '[C01:iter-progress] res matches Ok(Some(i)) ==> final(self).inp().len < old(self).inp().len',
         '[C01:iter-done] res matches Ok(None) ==> old(self).inp().len == 0',
-        '[C01:frame] within(old(self).inp(), final(self).inp())', 'final(self).wf()'], owners=OWN, canary=True)
+        '[C01:frame] final(self).inp().root == old(self).inp().root && final(self).inp().be == old(self).inp().be && final(self).inp().len <= old(self).inp().len && (res is Ok ==> within(old(self).inp(), final(self).inp()))',
+        'final(self).wf()'], owners=OWN, canary=True)
     sk.add('read::cfi', it)
 
     # ---- UnwindTable
@@ -428,8 +432,10 @@ def populate_unwind(ctx, sk, cfi):
     ut.splice('evaluate', ret='res',
               requires=['old(self).ctx.wf()', '[C01:address-size-validated] valid_address_size(old(self).address_size)'],
               ensures=evaluate_clauses(),
-              before=[('self.ctx.set_cfa(CfaRule::RegisterAndOffset {\n                    register,\n                    offset: offset as i64,', 'proof { lemma_u64_as_i64(offset); }'),
-                      ('*off = offset as i64;', 'proof { lemma_u64_as_i64(offset); }')],
+              before=[('match instruction {', 'proof { broadcast use lemma_with_top_top; }'),
+                      ('self.ctx.set_cfa(CfaRule::RegisterAndOffset {\n                    register,\n                    offset: offset as i64,', 'proof { lemma_u64_as_i64(offset); }'),
+                      ('*off = offset as i64;', 'proof { lemma_u64_as_i64(offset); }'),
+                      ('let value = match self.ctx.row().register(register) {', 'proof { assert(0u64 ^ 1 == 1u64) by (bit_vector); }')],
               owners=OWN, canary=True)
     ut.insert_members('''    // ghost accessors for the public contract of next_row
     pub closed spec fn g_ctx(&self) -> ACtx<R::Offset> { self.ctx.abs() }
@@ -448,13 +454,13 @@ def populate_unwind(ctx, sk, cfi):
         f'[C06:rows-contiguous] res matches Ok(Some(row)) ==> row.abs().start == {G0}.g_next()',
         f'[C06:rows-contiguous] res matches Ok(Some(row)) ==> ({G1}.g_done() && !{G0}.g_done()) || row.abs().end == {G1}.g_next()',
         f'[C06:rows-nondecreasing] {G1}.g_next() >= {G0}.g_next()',
-        f'[C06:last-row-ends-at-fde-end] res matches Ok(Some(row)) ==> ({G1}.g_done() && !{G0}.g_done() ==> row.abs().end == {G0}.g_last_end() && {G0}.g_inp().len == 0 && {G1}.g_next() == {G0}.g_next())',
+        f'[C06:last-row-ends-at-fde-end] res matches Ok(Some(row)) ==> ({G1}.g_done() && !{G0}.g_done() ==> row.abs().end == {G0}.g_last_end() && {G1}.g_inp().len == 0 && {G1}.g_next() == {G0}.g_next())',
         f'[C06:row-is-current] res matches Ok(Some(row)) ==> row.abs() == {G1}.g_ctx().top()',
         f'[C01:iter-done] res matches Ok(None) ==> {G0}.g_done() && {G0}.g_inp().len == 0',
         f'[C01:iter-done] {G0}.g_done() ==> res matches Ok(None)',
         f'[C01:iter-progress] res matches Ok(Some(row)) ==> {G1}.g_inp().len < {G0}.g_inp().len || ({G1}.g_done() && !{G0}.g_done())',
         f'[C01:iter-progress] res is Err ==> {G1}.g_inp().len < {G0}.g_inp().len',
-        f'[C01:frame] within({G0}.g_inp(), {G1}.g_inp())',
+        f'[C01:frame] {G1}.g_inp().root == {G0}.g_inp().root && {G1}.g_inp().len <= {G0}.g_inp().len',
         f'{G1}.g_params() == {G0}.g_params() && {G1}.g_last_end() == {G0}.g_last_end() && {G1}.g_ctx().initial == {G0}.g_ctx().initial && ({G0}.g_done() ==> {G1}.g_done())'],
         loops={0: '''invariant
             self.ctx.wf(), valid_address_size(self.address_size), self.instructions.wf(),
@@ -463,8 +469,10 @@ def populate_unwind(ctx, sk, cfi):
             self.code_alignment_factor == old(self).code_alignment_factor, self.data_alignment_factor == old(self).data_alignment_factor,
             self.address_size == old(self).address_size, self.ctx.abs().initial == old(self).ctx.abs().initial,
             self.ctx.abs().top().start == old(self).next_start_address,
-            within(old(self).instructions.inp(), self.instructions.inp()),
+            self.instructions.inp().root == old(self).instructions.inp().root, self.instructions.inp().len <= old(self).instructions.inp().len,
+            old(self).g_wf(),
         decreases self.instructions.inp().len'''},
+        before=[('self.ctx.set_start_address(self.next_start_address);', 'proof { assert(self.ctx.stack.view().len() >= 1); }')],
         owners=OWN, canary=True)
     ut.splice('into_current_row', ret='res', requires=['self.g_wf()'], ensures=['res matches Some(row) ==> row.abs() == self.g_ctx().top()'], owners=OWN)
     FO = 'let offset = Wrapping(factored_offset as i64) * self.data_alignment_factor;'
